@@ -308,6 +308,13 @@ func runSysPair(idx int, outcome string, tl *traceLog) (res sysRun) {
 		sa.Mid, sa.MidAns, sa.MidOK, sa.MidConn, sa.MidShip = mid[0].Notes, mid[0].Answer, mid[0].LastIs, mid[0].Conn, len(mid[0].Reports)
 		sb.Mid, sb.MidAns, sb.MidOK, sb.MidConn, sb.MidShip = mid[1].Notes, mid[1].Answer, mid[1].LastIs, mid[1].Conn, len(mid[1].Reports)
 	}
+	// a case is only used if nothing arrives late: same notifications 700 ms after the sample
+	time.Sleep(700 * time.Millisecond)
+	na, _ := a.app.snapshot(b.ski)
+	nb, _ := b.app.snapshot(a.ski)
+	if len(na) != len(sa.Notes) || len(nb) != len(sb.Notes) {
+		res.Quiet = false
+	}
 	res.Sides = []sysSide{sa, sb}
 	return
 }
